@@ -717,9 +717,10 @@ func runFaults(e *env, c lib.Case, ops []any) (lib.Out, any) {
 		e.setRemote(op)
 	}
 	template := e.dir
-	_, pre := e.snapshot()
+	preOut, pre := e.snapshot()
 	pre = dropRemotes(pre)
-	runOnce := func(k int) (faultRun, int) {
+	var baseOut lib.Out
+	runOnce := func(k int) (faultRun, int, []string) {
 		w := filepath.Join(e.base, fmt.Sprintf("k%d", k))
 		copyTree(template, w)
 		defer os.RemoveAll(w)
@@ -729,14 +730,21 @@ func runFaults(e *env, c lib.Case, ops []any) (lib.Out, any) {
 		e.flt.calls = 0
 		if k > 0 {
 			e.flt.arm(k)
+		} else {
+			e.flt.rec = true
 		}
 		var err error
 		var pan any
+		var h plumbing.Hash
 		func() {
 			defer func() { pan = recover() }()
-			_, err = e.runOp(r, op)
+			h, err = e.runOp(r, op)
 		}()
-		_, post := e.snapshot()
+		if k == 0 && err == nil && pan == nil && op.S("op") == "commit" {
+			e.cidx[h] = len(e.commits) // the commit the undisturbed run made: numbered like the model's
+		}
+		postOut, post := e.snapshot()
+		delete(e.cidx, h) // in the fault runs a commit made by the op itself is unknown (-2), as in the model's effect list
 		post = dropRemotes(post)
 		fr := faultRun{K: k, Res: classify(err), Call: e.flt.fired, Diff: snapDiff(pre, post)}
 		if pan != nil {
@@ -747,33 +755,72 @@ func runFaults(e *env, c lib.Case, ops []any) (lib.Out, any) {
 		if len(fr.Diff) > 0 && fr.Res != "ok" {
 			fr.Snap = &post
 		}
-		n := e.flt.calls
+		n, tr := e.flt.calls, e.flt.trace
+		if k == 0 {
+			baseOut = postOut
+		}
 		e.dir, e.flt = template, nil
-		return fr, n
+		return fr, n, tr
 	}
-	base, n := runOnce(0)
+	base, n, trace := runOnce(0)
+	// the first call that changes something observable (a reference, the index, a worktree file)
+	first := 0
+	for i, t := range trace {
+		m, p, _ := strings.Cut(t, " ")
+		switch m {
+		case "Create", "OpenFile", "Write", "Rename", "Remove", "Symlink", "TempFile":
+			if !strings.HasPrefix(p, ".git/objects") && p != ".git/config" && !strings.HasPrefix(p, ".git/refs/remotes") {
+				first = i + 1
+			}
+		}
+		if first > 0 {
+			break
+		}
+	}
 	var ks []int
 	if l := c.L("ks"); len(l) > 0 {
 		for _, x := range l {
 			ks = append(ks, int(lib.Case{"n": x}.I("n")))
 		}
+	} else if m := int(c.I("maxk")); m > 0 && n > m {
+		// quick tier: every call from just before the first observable store on, a sample of the earlier ones
+		from := n + 1
+		if first > 0 {
+			from = first - 2
+			if from < 1 {
+				from = 1
+			}
+		}
+		tail := n - from + 1
+		pre := 12
+		if tail > m-pre {
+			stride := (tail + (m - pre) - 1) / (m - pre)
+			for k := from + int(c.I("koff"))%stride; k <= n; k += stride {
+				ks = append(ks, k)
+			}
+		} else {
+			for k := from; k <= n; k++ {
+				ks = append(ks, k)
+			}
+			pre = m - tail
+		}
+		if from > 1 {
+			stride := (from - 1 + pre - 1) / pre
+			var early []int
+			for k := 1 + int(c.I("koff"))%stride; k < from; k += stride {
+				early = append(early, k)
+			}
+			ks = append(early, ks...)
+		}
 	} else {
-		stride := 1
-		if m := int(c.I("maxk")); m > 0 && n > m {
-			stride = (n + m - 1) / m
-		}
-		off := 1
-		if stride > 1 {
-			off = 1 + int(c.I("koff"))%stride
-		}
-		for k := off; k <= n; k += stride {
+		for k := 1; k <= n; k++ {
 			ks = append(ks, k)
 		}
 	}
 	runs := []faultRun{}
 	refusals, changed := 0, 0
 	for _, k := range ks {
-		fr, _ := runOnce(k)
+		fr, _, _ := runOnce(k)
 		if fr.Res != "ok" {
 			refusals++
 			if len(fr.Diff) > 0 {
@@ -782,8 +829,12 @@ func runFaults(e *env, c lib.Case, ops []any) (lib.Out, any) {
 		}
 		runs = append(runs, fr)
 	}
-	return lib.List(lib.Sym("faults"), lib.Str(base.Res), lib.Int(int64(n))),
-		map[string]any{"pre": pre, "calls": n, "base": base, "runs": runs, "refusals": refusals, "changed": changed}
+	res := lib.Ok()
+	if base.Res != "ok" {
+		res = lib.Err(base.Res)
+	}
+	return lib.List(lib.Sym("faults"), res, preOut, baseOut),
+		map[string]any{"pre": pre, "calls": n, "first_store": first, "base": base, "runs": runs, "refusals": refusals, "changed": changed}
 }
 
 func main() {
